@@ -63,6 +63,11 @@ def point_kind(e: ast.expr, f: FuncInfo, _depth: int = 0) -> Tuple[bool, str]:
             asg = [n for n in f.body_nodes() if isinstance(n, ast.Assign) and len(n.targets) == 1 and isinstance(n.targets[0], ast.Name) and n.targets[0].id == e.id]
             if len(asg) == 1:
                 return point_kind(asg[0].value, f, _depth + 1)
+        if _depth < 3:
+            from . import wire as _w
+            e2 = _w.inline_locals(f, e, unpack=True)
+            if not isinstance(e2, ast.Name):
+                return point_kind(e2, f, _depth + 1)
         return False, f"name '{e.id}' is not a coordinate origin"
     if isinstance(e, ast.Attribute):
         if e.attr in POINT_ATTRS:
@@ -158,6 +163,23 @@ def expr_is_point(f: FuncInfo, e: ast.expr, depth: int = 0) -> bool:
 def component_kind(e: ast.expr, k: int, f: FuncInfo) -> Tuple[bool, str]:
     """element k of an origin tuple: exactly one +POINT[k] term, every other term a component-k quantity or a literal;
     or the midpoint of two coordinates of axis k"""
+    # a midpoint written out over the coordinate columns themselves (temporaries, unpacked tuples and new helpers read through):  (min(G[:, k]) - b + max(G[:, k]) + b) / 2
+    from . import wire as _w
+    e_in = _w.inline_locals(f, e, unpack=True) if isinstance(e, (ast.Name, ast.Subscript)) else e
+    half = None
+    if isinstance(e_in, ast.BinOp) and isinstance(e_in.op, ast.Div) and isinstance(e_in.right, ast.Constant) and e_in.right.value in (2, 2.0):
+        half = e_in.left
+    elif isinstance(e_in, ast.BinOp) and isinstance(e_in.op, ast.Mult):
+        for a_, b_ in ((e_in.left, e_in.right), (e_in.right, e_in.left)):
+            if isinstance(a_, ast.Constant) and a_.value == 0.5:
+                half = b_
+    if half is not None and isinstance(half, ast.BinOp) and isinstance(half.op, ast.Add):
+        cols = [s_.slice.elts[-1].value for s_ in ast.walk(half) if isinstance(s_, ast.Subscript) and isinstance(s_.slice, ast.Tuple) and len(s_.slice.elts) == 2
+                and isinstance(s_.slice.elts[0], ast.Slice) and isinstance(s_.slice.elts[-1], ast.Constant) and isinstance(s_.slice.elts[-1].value, int)]
+        if cols:
+            if all(c_ == k for c_ in cols):
+                return True, "midpoint of the extreme coordinates of its own axis"
+            return False, f"midpoint built from column {sorted(set(cols) - {k})[0]} of the coordinates, the other axis"
     mp = _midpoint(e)
     if mp is not None:
         axes = [_coord_axis(nm, f) for nm in mp]
